@@ -1450,6 +1450,10 @@ def coc_clean(rig: Rig, frames) -> bool:
             acl_stream += data[5:]
             if vcid in acl_stream:
                 return False
+        if chan.startswith('pacl:'):
+            acl_stream += data
+            if vcid in acl_stream:
+                return False
         if chan == 'coc':
             n += 1
             if len(data) < 2 or struct.unpack_from('<H', data, 0)[0] != len(data) - 2 or len(data) > 64:
